@@ -225,10 +225,17 @@ def rid(case, w):
     return ("%d" % w) if case.get("idfromcomm") else ("w%d" % w)
 
 
-def meta_conf(case, rid, registry):
+def meta_conf(case, rid, registry, second=False):
+    """second: the configuration of a job that continues from a state file; with case["conf2"] it legally differs from the
+    one that wrote the state (hill frequency, exchange frequency, hill width)"""
+    if second and case.get("conf2"):
+        case = dict(case, hillfreq=case["conf2"]["hillfreq"], upfreq=case["conf2"]["upfreq"])
+        sigma = SIGMA * 2
+    else:
+        sigma = SIGMA
     return ["colvar {", "  name v0", "  lowerBoundary 0", "  upperBoundary %d" % case["nbins"], "  width 1",
             "  distanceZ {", "    main { atomNumbers 1 }", "    ref { dummyAtom (0,0,0) }", "    axis (0,0,1)", "  }", "}",
-            "metadynamics {", "  name m", "  colvars v0", "  hillWeight 1", "  gaussianSigmas %r" % SIGMA,
+            "metadynamics {", "  name m", "  colvars v0", "  hillWeight 1", "  gaussianSigmas %r" % sigma,
             "  newHillFrequency %d" % case["hillfreq"]] + (["  useGrids on", "  writeFreeEnergyFile off"] if case.get("grids", True) else ["  useGrids off"]) + [
           ] + (["  stepZeroData on"] if case.get("szd") else []) + [
             "  multipleReplicas on"] + ([] if case.get("idfromcomm") else ["  replicaID %s" % rid]) + ["  replicasRegistry %s" % registry,
@@ -237,7 +244,7 @@ def meta_conf(case, rid, registry):
 
 def meta_setup(case, rid, registry, prefix, restartfreq, load=None):
     L = ["natoms 1", "restartfreq %d" % restartfreq, "prefix", "new"] + (["setstep %d" % case["step0"]] if case.get("step0") and not load else []) + \
-        ["config EOF"] + meta_conf(case, rid, registry) + ["EOF",
+        ["config EOF"] + meta_conf(case, rid, registry, second=bool(load)) + ["EOF",
          "show cv 0 energy 0 bias 0 atomf 0"]
     if load:
         L += ["load %s" % load]
